@@ -44,9 +44,10 @@ Record(d, c) ==
    data |-> d, cfg |-> c, expect |-> r]
 
 Emit(text) ==
-  Serialize(text, IOEnv.OUT_FILE,
-            [format |-> "TXT", charset |-> "UTF-8",
-             openOptions |-> <<"WRITE", "CREATE", "APPEND">>]).exitValue = 0
+  LET r == Serialize(text, IOEnv.OUT_FILE,
+                     [format |-> "TXT", charset |-> "UTF-8",
+                      openOptions |-> <<"WRITE", "CREATE", "APPEND">>])
+  IN IF r.exitValue = 0 THEN TRUE ELSE PrintT(<<"Serialize failed", r>>) /\ FALSE
 
 RECURSIVE Cat(_)
 Cat(ss) == IF ss = <<>> THEN "" ELSE ss[1] \o Cat(Tail(ss))
@@ -55,34 +56,31 @@ RECURSIVE SetAsSeq(_)
 SetAsSeq(S) == IF S = {} THEN <<>> ELSE LET x == CHOOSE y \in S : TRUE IN <<x>> \o SetAsSeq(S \ {x})
 Combos == SetAsSeq(DataSets \X Cfgs)
 
-\* "invariant" with a side effect: export every behaviour the model can predict
-\* (one append per program, one line per data set and configuration)
+\* "invariant" with a side effect: export every behaviour the model can predict,
+\* one line per data set and configuration.  (One write per line: TLC interns every
+\* string it builds, so concatenating lines first costs quadratic memory.)
 Export ==
   prog # <<>> =>
-    LET lines == [i \in DOMAIN Combos |->
-                    LET rec == Record(Combos[i][1], Combos[i][2]) IN
-                    IF rec.expect.err = "UNSPEC" THEN "" ELSE ToJson(rec) \o "\n"]
-        text == Cat(lines)
-    IN text = "" \/ Emit(text)
+    \A i \in DOMAIN Combos :
+       LET rec == Record(Combos[i][1], Combos[i][2]) IN
+       IF rec.expect.err = "UNSPEC" THEN TRUE ELSE Emit(ToJson(rec) \o "\n")
 
 \* the same without dropping the behaviours the model refuses to predict (C02 only
 \* needs the inputs: its oracle is the error model, not the expected text)
 ExportAll ==
   prog # <<>> =>
-    Emit(Cat([i \in DOMAIN Combos |-> ToJson(Record(Combos[i][1], Combos[i][2])) \o "\n"]))
+    \A i \in DOMAIN Combos : Emit(ToJson(Record(Combos[i][1], Combos[i][2])) \o "\n")
 
 \* C16: the default-policy expectation plus whether the render touches an
 \* undefined at all (touch mode), for the three-policy comparison in the harness
 ExportUndef ==
   prog # <<>> =>
-    LET lines == [i \in DOMAIN Combos |->
-                    LET rec == Record(Combos[i][1], Combos[i][2])
-                        tch == Expect(Combos[i][1], [Combos[i][2] EXCEPT !.undef = "touch"]) IN
-                    IF rec.expect.err = "UNSPEC" \/ tch.err = "UNSPEC" THEN ""
-                    ELSE ToJson([rec EXCEPT !.expect = [ok |-> rec.expect.ok, err |-> rec.expect.err, out |-> rec.expect.out,
-                                                        touched |-> (tch.err = "UndefinedError")]]) \o "\n"]
-        text == Cat(lines)
-    IN text = "" \/ Emit(text)
+    \A i \in DOMAIN Combos :
+       LET rec == Record(Combos[i][1], Combos[i][2])
+           tch == Expect(Combos[i][1], [Combos[i][2] EXCEPT !.undef = "touch"]) IN
+       IF rec.expect.err = "UNSPEC" \/ tch.err = "UNSPEC" THEN TRUE
+       ELSE Emit(ToJson([rec EXCEPT !.expect = [ok |-> rec.expect.ok, err |-> rec.expect.err, out |-> rec.expect.out,
+                                                  touched |-> (tch.err = "UndefinedError")]]) \o "\n")
 
 \* C16 on the reference: a render that touches no undefined is the same under
 \* every policy
@@ -95,11 +93,11 @@ PolicyIrrelevantWithoutTouch ==
 \* inputs only (no expectation is computed)
 ExportInputs ==
   prog # <<>> =>
-    Emit(Cat([i \in DOMAIN Combos |->
-       ToJson([focus |-> Focus, main |-> "main",
+    \A i \in DOMAIN Combos :
+       Emit(ToJson([focus |-> Focus, main |-> "main",
                templates |-> <<<<"main", Src(prog)>>>> \o [j \in DOMAIN Partials |-> <<Partials[j][1], Src(Partials[j][2])>>],
                data |-> Combos[i][1], cfg |-> Combos[i][2],
-               expect |-> [ok |-> TRUE, err |-> "", out |-> ""]]) \o "\n"]))
+               expect |-> [ok |-> TRUE, err |-> "", out |-> ""]]) \o "\n")
 
 \* Properties of the reference semantics itself, checked on every program:
 \* a render either succeeds or fails with a class of the error model
